@@ -146,6 +146,21 @@ fn gen_records(w: &World, kind: Kind, scale: Scale, magic: Option<usize>, edge_d
                 std::iter::repeat(c).take(n).collect()
             } else if scale == Scale::Huge && w.chance(1, 2) {
                 string_from(w, desc_chars(), 1, 10_000)
+            } else if w.chance(1, 20) {
+                // key=value annotations as tools write them into headers, with extreme values
+                let mut d = String::new();
+                let n = 1 + w.draw(3);
+                for k in 0..n {
+                    if k > 0 {
+                        d.push(' ');
+                    }
+                    d.push_str(*w.pick(&[
+                        "len=12", "len=18446744073709551615", "length=4294967296", "len=99999999999999999999", "size=0", "LN:1000000000000",
+                        "score=1e308", "strand=-", "offset=-1", "count=007", "[organism=x]", "len=", "=len", "length:65536",
+                    ]));
+                }
+                w.probe("description_with_annotation_words");
+                d
             } else if realistic.is_some() {
                 // short words separated by single blanks
                 let mut d = String::new();
@@ -832,7 +847,21 @@ fn consume_either<B: BufRead>(mut it: fastx::EitherRecords<B>, ask_kind: bool, m
             Err(e) => Err((is_eintr_io(&e), e.to_string())),
         });
     }
-    for item in &mut it {
+    let mut asked_again = false;
+    while let Some(item) = it.next() {
+        // kind() asked again in the middle of the iteration must not disturb it
+        if ask_kind && !asked_again && p.items == 1 {
+            asked_again = true;
+            if let (Ok(k2), Some(Ok(k1))) = (it.kind(), &p.kind_reported) {
+                let k2 = match k2 {
+                    fastx::Kind::FASTA => Kind::Fasta,
+                    fastx::Kind::FASTQ => Kind::Fastq,
+                };
+                if k2 != *k1 {
+                    p.kind_reported = Some(Err((false, format!("kind() said {:?} first and {:?} after one record", k1, k2))));
+                }
+            }
+        }
         p.items += 1;
         match item {
             Ok(r) => {
@@ -1247,7 +1276,9 @@ fn roundtrip(w: &W, kind: Kind, with_cut: bool) -> Verdict {
                     len
                 } else {
                     let e = *w.pick(&img.boundaries) as i64;
-                    let d = [0i64, -1, -2, 1, 2][w.draw(5) as usize];
+                    // right at / next to the boundary, or short of it by a multiple of 256 or 65 536
+                    // (length comparisons done in a narrower integer type)
+                    let d = [0i64, -1, -2, 1, 2, -256, -257, -65_536, -65_537, -131_072, -512][w.draw(11) as usize];
                     (e + d).clamp(0, len as i64) as usize
                 }
             }
@@ -1722,7 +1753,7 @@ pub fn property() -> Property {
             "header_split_across_reads", "cr_lf_in_different_reads", "utf8_char_split_across_reads", "first_byte_delivered_alone",
             "cut_at_record_boundary", "cut_inside_header", "cut_inside_plus_line", "cut_inside_quality", "cut_inside_sequence", "cut_inside_terminator",
             "quality_starts_with_at", "quality_starts_with_plus", "writer_buffer_smaller_than_field", "relayout_multiline_crlf",
-            "sniffer_used", "records_iterator_driven_through_methods", "realistic_read_names", "related_fields_or_records", "description_empty_or_ending_in_whitespace", "sniff_seek_stream_not_at_zero", "magic_size_run", "wrap_equals_magic_and_sequence_reaches_it", "large_regime", "many_records_regime", "huge_regime", "cut_sweep", "all_partitions_sweep", "garbage_invalid_utf8", "garbage_rejected_with_error",
+            "sniffer_used", "description_with_annotation_words", "records_iterator_driven_through_methods", "realistic_read_names", "related_fields_or_records", "description_empty_or_ending_in_whitespace", "sniff_seek_stream_not_at_zero", "magic_size_run", "wrap_equals_magic_and_sequence_reaches_it", "large_regime", "many_records_regime", "huge_regime", "cut_sweep", "all_partitions_sweep", "garbage_invalid_utf8", "garbage_rejected_with_error",
         ],
         quick_runs: 400_000,
         thorough_runs: 30_000_000,
